@@ -19,6 +19,7 @@ History operations (state = the current context and its log objects):
 * `logm <id> <level> <msg>`    — the same through `FCPPT_LOG_<LEVEL>` (level_if_enabled.hpp); `ev` = how often the
                                  message expression was evaluated                                    → `emit=… ev=<n>`
 * `logp <id> <level> <p> <q>`  — `object::log(level, out << p << |q| << q)` (several insertions)     → `emit=…`
+* `loga <id> <level> <p> <q>`  — `t = out << p; t = out << q; object::log(level, t)` (move assignment of the output) → `emit=…`
 * `fmt <id> <text>`            — `object::formatter()` applied to a text                            → `fmt=<text>` | `fmt=-`
 * `sink <id> <level> <fmt> <msg>` — `object::level_sink(level).log(out << msg, fmt)`; `same` = that stream is
                                  `object::level_streams()[level]` and `context::level_streams()[level]` → `emit=<sink>|<text> same=1`
@@ -28,7 +29,7 @@ Stateless operations (do not touch the current context):
 
 * `lfs <s>` `lts <k>` `lout <k>` `lin <text>` — `level_from_string`, `level_to_string`, `operator<<`, `operator>>`
 * `loc <prog>`                 — location algebra: `e` | `n:<name>` first, then `d:<name>` (`/=`), `s:<name>` (`operator/`),
-                                 `x` (`/=` with a copy of the first entry); → `str=<string()> n=<size> elems=<a|b> ok=1`
+                                 `a:<name>` (`l = l / name`), `m:<name>` (`l = std::move(l) / name`), `x` (`/=` with a copy of the first entry); → `str=<string()> n=<size> elems=<a|b> ok=1`
 * `chain <f> <g> <text>`       — `format::chain(f, g)` → `r=<text>` | `r=-`;  `fn <f> <text>` — one formatter applied
 * `ts <text>`                  — `format::time_stamp()`                                             → `ts=ok rest=<text>`
 * `ls <own> <add> <0|1> <msg>` — a free-standing `level_stream` on sink A, redirected to sink B by `sink()` if 1
@@ -155,6 +156,8 @@ def locProg : Option Loc → List String → Option Loc
     else match t.splitOn ":" with
       | ["d", n] => locProg (some (locPush l (parseName n))) ts
       | ["s", n] => locProg (some (locPush l (parseName n))) ts
+      | ["a", n] => locProg (some (locPush l (parseName n))) ts
+      | ["m", n] => locProg (some (locPush l (parseName n))) ts
       | _ => none
 
 def showName (s : String) : String := if s = "" then "_" else s
@@ -257,9 +260,13 @@ def handleCore (s : St) (toks : List String) : St × String :=
     match getObj s id with
     | some o => (s, "fmt=" ++ showOpt o.fmt text)
     | none => (s, "bad-op")
+  | ["loga", id, l, p, q] => (s, doLog s id l (outAssign [p] [q]))
   | ["sink", id, l, f, msg] =>
     match getObj s id, parseLvlNat l with
-    | some _, some k => (s, emitLine k (some (sinkLog (streams s.cfg) k (parseFmt f) msg)) ++ " same=1")
+    | some o, some k =>
+      -- `@`: the object's own formatter (the very same optional_function object) as additional formatter
+      let add := if f = "@" then o.fmt else parseFmt f
+      (s, emitLine k (some (sinkLog (streams s.cfg) k add msg)) ++ " same=1")
     | _, _ => (s, "bad-op")
   | ["cstr", l, f, msg] =>
     match parseLvlNat l with
